@@ -1871,6 +1871,135 @@ fn replay_latereg(case: &str) -> Option<String> {
 }
 
 // ---------------------------------------------------------------- known findings: deterministic demonstrations
+// ---------------------------------------------------------------- suite `balance`: the equations of C18 on a stopped store
+// case: "balance policy=<B|O|L> cap=<n> n=<actions> after=<dispatches after stop> mw=<0|1>"
+// the reducer is parked on the first action while the others are dispatched (drop policies: some are discarded)
+fn run_balance_case(policy: char, cap: usize, n: usize, after: usize, with_mw: bool) -> Option<(String, String, String)> {
+    use std::sync::mpsc;
+    let (gate_tx, gate_rx) = mpsc::channel::<()>();
+    let gate_rx = Mutex::new(gate_rx);
+    let (entered_tx, entered_rx) = mpsc::channel::<()>();
+    let entered_tx = Mutex::new(entered_tx);
+    let reduced: Arc<Mutex<Vec<Ac>>> = Arc::new(Mutex::new(vec![]));
+    let r2 = reduced.clone();
+    let park = policy != 'B';
+    let hooks = Arc::new(AtomicUsize::new(0));
+    let br_hooks = Arc::new(AtomicUsize::new(0));
+    struct CountMw {
+        hooks: Arc<AtomicUsize>,
+        br_hooks: Arc<AtomicUsize>,
+    }
+    impl Middleware<St, Ac> for CountMw {
+        fn before_reduce(&self, action: &Ac, _s: &St, _d: Arc<dyn Dispatcher<Ac>>) -> Result<MiddlewareOp, StoreError> {
+            self.hooks.fetch_add(1, Ordering::SeqCst);
+            self.br_hooks.fetch_add(1, Ordering::SeqCst);
+            // veto every third action
+            if *action % 3 == 0 { Ok(MiddlewareOp::DoneAction) } else { Ok(MiddlewareOp::ContinueAction) }
+        }
+        fn before_effect(&self, _a: &Ac, _s: &St, _e: &mut Vec<Effect<Ac>>, _d: Arc<dyn Dispatcher<Ac>>) -> Result<MiddlewareOp, StoreError> {
+            self.hooks.fetch_add(1, Ordering::SeqCst);
+            Ok(MiddlewareOp::ContinueAction)
+        }
+        fn before_dispatch(&self, _a: &Ac, _s: &St, _d: Arc<dyn Dispatcher<Ac>>) -> Result<MiddlewareOp, StoreError> {
+            self.hooks.fetch_add(1, Ordering::SeqCst);
+            Ok(MiddlewareOp::ContinueAction)
+        }
+    }
+    let mut b = StoreBuilder::<St, Ac>::new(0)
+        .with_capacity(cap)
+        .with_policy(match policy { 'O' => BackpressurePolicy::DropOldest, 'L' => BackpressurePolicy::DropLatest, _ => BackpressurePolicy::BlockOnFull })
+        .with_reducer(Box::new(crate::reducer::FnReducer::from(move |s: &St, a: &Ac| {
+            if park && *a == 1 {
+                let _ = entered_tx.lock().unwrap().send(());
+                let _ = gate_rx.lock().unwrap().recv_timeout(Duration::from_secs(10));
+            }
+            r2.lock().unwrap().push(*a);
+            DispatchOp::Dispatch(mix(*s, *a, 0), None)
+        })));
+    if with_mw {
+        b = b.add_middleware(Arc::new(CountMw { hooks: hooks.clone(), br_hooks: br_hooks.clone() }));
+    }
+    let store = b.build().unwrap();
+    let mut dispatched = 0usize;
+    for a in 1..=n as Ac {
+        // every dispatch on the open store counts as dispatched, whatever the channel does with it
+        let _ = StoreImpl::dispatch(&*store, a);
+        dispatched += 1;
+        if park && a == 1 && entered_rx.recv_timeout(Duration::from_secs(10)).is_err() {
+            let _ = gate_tx.send(());
+            store.stop();
+            return None;
+        }
+    }
+    if park {
+        // close while the queue is still full: the marker itself competes for room under the drop policies
+        store.close();
+    }
+    let _ = gate_tx.send(());
+    store.stop();
+    let mut rejected = 0usize;
+    for a in 0..after as Ac {
+        if StoreImpl::dispatch(&*store, 100 + a).is_err() {
+            rejected += 1;
+        }
+    }
+    let m = store.get_metrics();
+    let got_reduced = reduced.lock().unwrap().len();
+    // actions that reached the reducer context (seen by the first hook, or by the reducer when there is no middleware)
+    let seen = if with_mw { br_hooks.load(Ordering::SeqCst) } else { got_reduced };
+    if seen + m.action_dropped != dispatched {
+        return Some(("O-C06-send-drop-oldest-any-schedule".into(), format!("actions that reached the reducer context ({}) + action_dropped == {} dispatched while open", seen, dispatched), format!("action_dropped {}", m.action_dropped)));
+    }
+    // the received counter: those actions, the shutdown marker counted or not
+    if m.action_received != seen && m.action_received != seen + 1 {
+        return Some(("O-C18-loop-counts".into(), format!("action_received == {} (+1 if the marker is counted)", seen), format!("{}", m.action_received)));
+    }
+    if m.action_reduced != got_reduced {
+        return Some(("O-C18-do_reduce-counts".into(), format!("action_reduced == {} actions that reached the reducer", got_reduced), format!("{}", m.action_reduced)));
+    }
+    if with_mw && m.middleware_executed != hooks.load(Ordering::SeqCst) {
+        return Some(("O-C18-do_reduce-counts".into(), format!("middleware_executed == {} hooks actually invoked", hooks.load(Ordering::SeqCst)), format!("{}", m.middleware_executed)));
+    }
+    if m.effect_issued != 0 {
+        return Some(("O-C18-do_effect-counts".into(), "effect_issued == 0 (the reducer returns no effects)".into(), format!("{}", m.effect_issued)));
+    }
+    if rejected != after || m.error_occurred != rejected {
+        return Some(("O-C18-dispatch-open-counts-nothing".into(), format!("error_occurred == {} dispatches rejected after close ({} attempted)", rejected, after), format!("{}", m.error_occurred)));
+    }
+    None
+}
+fn suite_balance() -> Option<String> {
+    for policy in ['L', 'O', 'B'] {
+        for (cap, n) in [(1usize, 4usize), (2, 6)] {
+            for after in [0usize, 2] {
+                for with_mw in [false, true] {
+                    if let Some((ob, exp, got)) = run_balance_case(policy, cap, n, after, with_mw) {
+                        return Some(found("balance", &ob, format!("balance policy={} cap={} n={} after={} mw={}", policy, cap, n, after, with_mw as u8), exp, got));
+                    }
+                }
+            }
+        }
+    }
+    None
+}
+fn replay_balance(case: &str) -> Option<String> {
+    let (mut policy, mut cap, mut n, mut after, mut mw) = ('L', 1usize, 4usize, 0usize, false);
+    for tok in case.split_whitespace() {
+        if let Some(v) = tok.strip_prefix("policy=") {
+            policy = v.chars().next().unwrap();
+        } else if let Some(v) = tok.strip_prefix("cap=") {
+            cap = v.parse().unwrap();
+        } else if let Some(v) = tok.strip_prefix("n=") {
+            n = v.parse().unwrap();
+        } else if let Some(v) = tok.strip_prefix("after=") {
+            after = v.parse().unwrap();
+        } else if let Some(v) = tok.strip_prefix("mw=") {
+            mw = v == "1";
+        }
+    }
+    run_balance_case(policy, cap, n, after, mw).map(|(ob, exp, got)| found("balance", &ob, case.to_string(), exp, got))
+}
+
 fn finding_c11() -> Option<String> {
     // F-C11-1: effects of actions accepted before stop() are skipped
     let ran = Arc::new(AtomicUsize::new(0));
@@ -1963,6 +2092,7 @@ fn verif_witness() {
                 "channeled" => suite_channeled(),
                 "iter" => suite_iter(),
                 "latereg" => suite_latereg(),
+                "balance" => suite_balance(),
                 "finding-c11" => finding_c11(),
                 "finding-c18" => finding_c18(),
                 "finding-c14" => finding_c14(),
@@ -1988,6 +2118,7 @@ fn verif_witness() {
             "channeled" => replay_channeled(case),
             "iter" => replay_iter(case),
             "latereg" => replay_latereg(case),
+            "balance" => replay_balance(case),
             "finding-c11" => finding_c11(),
             "finding-c18" => finding_c18(),
             "finding-c14" => finding_c14(),
